@@ -83,14 +83,38 @@ GLOBALS: dict[str, Any] = {
     ],
     "gmap": {"x": "gx", "k": "gk"},
     "gs": ["u", "v", "w"],
+    "gmsg": "D %(a)s|%(x)s|%(item)s|%(locale)s|%(count)s",  # a message taken from data
 }
 GVALS = ["g1", "g2", "gmap.x", "gmap.k", "garr[0].k", "gs.first", "gs[1]", "'lit'", "7", "true", "nil", "'z z'"]
+
+# Names the engine reads by *name* through RenderContext.resolve() (i18n / l10n machinery)
+# or serves from the builtin layer: the caller binds them like any pool name, the bodies read
+# them through translate / t / gettext... message variables and the babel filters' settings.
+SETTING_VALUES: dict[str, tuple[str, str]] = {
+    "locale": ("'de'", "'fr'"),
+    "input_locale": ("'de'", "'fr'"),
+    "currency_code": ("'EUR'", "'JPY'"),
+    "currency_format": ("'#,##0.00 ¤¤'", "'¤¤ #0.0'"),
+    "timezone": ("'Europe/Berlin'", "'Asia/Tokyo'"),
+    "input_timezone": ("'America/New_York'", "'Asia/Tokyo'"),
+    "datetime_format": ("'short'", "'full'"),
+    "decimal_quantization": ("true", "false"),
+    "decimal_format": ("'#,##0.0000'", "'0.#'"),
+    "unit_length": ("'short'", "'narrow'"),
+    "unit_format": ("'#,##0.0'", "'0'"),
+    "translations": ("'TR1'", "'TR2'"),
+    "count": ("3", "5"),
+    "now": ("'NOW1'", "'NOW2'"),
+    "today": ("'TOD1'", "'TOD2'"),
+}
+SETTINGS = list(SETTING_VALUES)
+MSG_NAMES = POOL + ["locale", "count", "translations"]
 
 DUMP_NAMES = "[" + ";".join(f"{n}={{{{ {n} }}}}" for n in POOL) + "]"
 DUMP = (
     "[" + ";".join(f"{n}={{{{ {n} }}}}" for n in POOL)
     + ";fl={{ forloop.index }}/{{ forloop.length }}/{{ forloop.parentloop.index }}"
-    + ";tr={{ tablerowloop.index }};ar={{ args }};kw={{ kwargs }}]"
+    + ";tr={{ tablerowloop.index }};ar={{ args }};kw={{ kwargs }};bl={% if block %}1{% endif %}]"
 )
 
 
@@ -429,12 +453,31 @@ class Pair:
     def _val(self, tagk: str, v: int) -> str:
         return f"{tagk}{v}"
 
+    def _name(self) -> str:
+        """A name for a caller-side binding: the shared pool, or (30 %) a name the engine
+        reads by name (settings of the l10n filters, `translations`, `count`, `now`, `today`)."""
+        return self.r.choice(SETTINGS) if self.r.random() < 0.3 else self.r.choice(POOL)
+
+    @staticmethod
+    def _lit(n: str, tagk: str, v: int) -> str:
+        """Literal bound to *n* in variant v (0/1): a valid, output-changing value for settings."""
+        return SETTING_VALUES[n][v] if n in SETTING_VALUES else f"'{tagk}{v + 1}'"
+
     def _prefix_stmt(self, k: int) -> dict[str, Any]:
         r = self.r
-        n = r.choice(POOL)
+        n = self._name()
         kind = r.choice(["assign", "assign", "assign", "liquid-assign", "capture", "capture", "incr", "decr",
                          "cycle", "cyclen", "stopidx", "macrodef"])
-        if kind == "assign":
+        if n in SETTING_VALUES and kind in ("assign", "liquid-assign", "capture"):
+            l1, l2 = SETTING_VALUES[n]
+            if kind == "assign":
+                v = [f"{{% assign {n} = {l1} %}}", f"{{% assign {n} = {l2} %}}"]
+            elif kind == "liquid-assign":
+                v = [f"{{% liquid assign {n} = {l1} %}}", f"{{% liquid assign {n} = {l2} %}}"]
+            else:
+                v = [f"{{% capture {n} %}}{l1.strip(chr(39))}{{% endcapture %}}",
+                     f"{{% capture {n} %}}{l2.strip(chr(39))}{{% endcapture %}}"]
+        elif kind == "assign":
             if r.random() < 0.3:
                 v = [f"{{% assign {n} = {11 + k} %}}", f"{{% assign {n} = {22 + k} %}}"]
             elif r.random() < 0.2:
@@ -470,7 +513,7 @@ class Pair:
         for _ in range(r.choice([0, 1, 1, 2, 2, 3])):
             kind = r.choice(["for", "for", "with", "capture", "include", "tablerow", "macro", "macro", "render",
                              "render"])
-            n = r.choice(POOL)
+            n = self._name()
             if kind == "capture":
                 # the captured text is printed through the name: it must not be shadowed by an
                 # enclosing wrapper's block-scoped name
@@ -483,7 +526,8 @@ class Pair:
             if kind == "for":
                 w = {"open": [f"{{% for {n} in (1..2) %}}", f"{{% for {n} in (5..7) limit: 2 %}}"], "close": "{% endfor %}"}
             elif kind == "with":
-                w = {"open": [f"{{% with {n}: 'W1' %}}", f"{{% with {n}: 'W2' %}}"], "close": "{% endwith %}"}
+                w = {"open": [f"{{% with {n}: {self._lit(n, 'W', 0)} %}}", f"{{% with {n}: {self._lit(n, 'W', 1)} %}}"],
+                     "close": "{% endwith %}"}
             elif kind == "capture":
                 w = {"open": [f"{{% capture {n} %}}"] * 2, "close": f"{{% endcapture %}}{{{{ {n} }}}}"}
             elif kind == "tablerow":
@@ -492,24 +536,25 @@ class Pair:
             elif kind in ("include", "render"):
                 form = r.choice(["kw", "with", "for"])
                 if form == "kw":
-                    args = [f", {n}: 'I1'", f", {n}: 'I2'"]
+                    args = [f", {n}: {self._lit(n, 'I', 0)}", f", {n}: {self._lit(n, 'I', 1)}"]
                 elif form == "with":
-                    args = [f" with 'I1' as {n}", f" with 'I2' as {n}"]
+                    args = [f" with {self._lit(n, 'I', 0)} as {n}", f" with {self._lit(n, 'I', 1)} as {n}"]
                 else:
                     args = [f" for gs as {n}"] * 2
                 w = {"inc_args": args, "form": form}
             else:  # enclosing macro whose parameter must not reach the partial
                 mname = f"outer{len(out)}"
                 form = r.choice(["pos", "kw", "default", "excess"])
+                m1, m2 = self._lit(n, "M", 0), self._lit(n, "M", 1)
                 if form == "pos":
-                    opn, calls = f"{{% macro {mname} {n} %}}", [f"{{% call {mname} 'M1' %}}", f"{{% call {mname} 'M2' %}}"]
+                    opn, calls = f"{{% macro {mname} {n} %}}", [f"{{% call {mname} {m1} %}}", f"{{% call {mname} {m2} %}}"]
                 elif form == "kw":
-                    opn, calls = f"{{% macro {mname} {n} %}}", [f"{{% call {mname} {n}: 'M1' %}}", f"{{% call {mname} {n}: 'M2' %}}"]
+                    opn, calls = f"{{% macro {mname} {n} %}}", [f"{{% call {mname} {n}: {m1} %}}", f"{{% call {mname} {n}: {m2} %}}"]
                 elif form == "default":  # (defaults are evaluated in the caller: literals only)
-                    opn, calls = f"{{% macro {mname} zq, {n}: 'M0' %}}", [f"{{% call {mname} 1, 'M1' %}}", f"{{% call {mname} 1, 'M2' %}}"]
+                    opn, calls = f"{{% macro {mname} zq, {n}: 'M0' %}}", [f"{{% call {mname} 1, {m1} %}}", f"{{% call {mname} 1, {m2} %}}"]
                 else:  # surplus arguments land in args / kwargs of the enclosing macro
-                    opn, calls = f"{{% macro {mname} {n} %}}", [f"{{% call {mname} 'M1', 'X1', zk: 'K1' %}}",
-                                                              f"{{% call {mname} 'M2', 'X2', zk: 'K2' %}}"]
+                    opn, calls = f"{{% macro {mname} {n} %}}", [f"{{% call {mname} {m1}, 'X1', zk: 'K1' %}}",
+                                                              f"{{% call {mname} {m2}, 'X2', zk: 'K2' %}}"]
                 w = {"open": [opn] * 2, "close_v": ["{% endmacro %}" + c for c in calls], "form": form}
             w["kind"] = kind
             w["name"] = n
@@ -529,16 +574,16 @@ class Pair:
         outermost wrapper: the chain is the root template (direct) or entered by include / render;
         the prefix statements are distributed over root, child (before `extends`) and base."""
         r = self.r
-        n = r.choice(POOL)
-        m = r.choice(POOL)
+        n = self._name()
+        m = self._name()
         entry = r.choice(["direct", "direct", "include", "include", "render"])
         form = r.choice(["plain", "kw", "with"])
         if entry == "direct" or form == "plain":
             args = ["", ""]
         elif form == "kw":
-            args = [f", {n}: 'E1'", f", {n}: 'E2'"]
+            args = [f", {n}: {self._lit(n, 'E', 0)}", f", {n}: {self._lit(n, 'E', 1)}"]
         else:
-            args = [f" with 'E1' as {n}", f" with 'E2' as {n}"]
+            args = [f" with {self._lit(n, 'E', 0)} as {n}", f" with {self._lit(n, 'E', 1)} as {n}"]
         bw = r.choice(["none", "for", "for", "with", "for+with"])
         bopen = ["", ""]
         bclose = ""
@@ -546,8 +591,9 @@ class Pair:
             bopen = [f"{{% for {m} in (1..2) %}}", f"{{% for {m} in (5..7) limit: 2 %}}"]
             bclose = "{% endfor %}"
         if "with" in bw:
-            k = r.choice(POOL)
-            bopen = [bopen[0] + f"{{% with {k}: 'BW1' %}}", bopen[1] + f"{{% with {k}: 'BW2' %}}"]
+            k = self._name()
+            bopen = [bopen[0] + f"{{% with {k}: {self._lit(k, 'BW', 0)} %}}",
+                     bopen[1] + f"{{% with {k}: {self._lit(k, 'BW', 1)} %}}"]
             bclose = "{% endwith %}" + bclose
         for st in self.prefix:
             st["role"] = r.choice(["root", "child", "base"])
@@ -593,8 +639,44 @@ class Pair:
         r = self.r
         n = r.choice(POOL)
         kind = r.choice(["read", "read", "assign", "capture", "incr", "decr", "cycle", "cyclen", "contfor",
-                         "for", "with", "callpm", "lambda", "render-q", "macro", "dump"])
-        if kind == "read":
+                         "for", "with", "callpm", "lambda", "render-q", "macro", "dump",
+                         "translate", "tfilter", "tfilter", "babel", "babel", "builtin"])
+        if kind == "translate":
+            # message variables, `count`, `translations` are read with RenderContext.resolve()
+            n = r.choice(MSG_NAMES)
+            src = r.choice([
+                f"{{% translate %}}T {{{{ {n} }}}}{{% endtranslate %}}",
+                f"{{% translate %}}T {{{{ {n} }}}} n={{{{ count }}}}{{% endtranslate %}}",
+                f"{{% translate count: 2 %}}one {{{{ {n} }}}}{{% plural %}}many {{{{ {n} }}}} {{{{ count }}}}{{% endtranslate %}}",
+                f"{{% translate context: 'cx' %}}C {{{{ {n} }}}}{{% endtranslate %}}",
+                f"{{% translate context: 'cx', count: g2 %}}one {{{{ {n} }}}}{{% plural %}}many {{{{ {n} }}}}{{% endtranslate %}}",
+            ])
+        elif kind == "tfilter":
+            n = r.choice(MSG_NAMES)
+            src = r.choice([
+                f"<{{{{ 'F %({n})s' | t }}}}>", f"<{{{{ 'G %({n})s' | gettext }}}}>",
+                f"<{{{{ 'one %({n})s' | ngettext: 'many %({n})s', 2 }}}}>",
+                f"<{{{{ 'P %({n})s' | pgettext: 'cx' }}}}>",
+                f"<{{{{ 'one %({n})s' | npgettext: 'cx', 'many %({n})s', 2 }}}}>",
+                f"<{{{{ 'T %({n})s' | t: 'cx', count: 2, plural: 'Ts %({n})s' }}}}>",
+                "<{{ gmsg | t }}>", "<{{ gmsg | gettext }}>",
+            ])
+        elif kind == "babel":
+            # locale, input_locale, currency_code, *_format, timezone, ... are read by name
+            n = "settings"
+            src = "<" + r.choice([
+                "{{ 1234.5 | decimal }}", "{{ '1234.5' | decimal }}", "{{ 1234.567 | decimal: group_separator: false }}",
+                "{{ 1234.5 | currency }}", "{{ '1234.5' | money }}", "{{ 1234.5 | money_with_currency }}",
+                "{{ 1234.5 | money_without_currency }}", "{{ 1234.0 | money_without_trailing_zeros }}",
+                "{{ 1152921504 | datetime }}", "{{ 1152921504 | datetime: format: 'short' }}",
+                "{{ '2006-07-15 10:00' | datetime }}", "{{ 12 | unit: 'length-meter' }}",
+                "{{ 12 | unit: 'length-meter', format: '#.0' }}", "{{ 12 | unit: 'duration-hour', length: 'long' }}",
+            ]) + ">"
+        elif kind == "builtin":
+            # the builtin layer: only the *kind* of value is printed (the clock itself varies)
+            n = r.choice(["now", "today"])
+            src = f"<{{{{ {n} | date: '%Y' | size }}}}>"
+        elif kind == "read":
             src = r.choice([
                 f"<{{{{ {n} }}}}>", f"{{% if {n} %}}T{{% else %}}F{{% endif %}}", f"<{{{{ {n} | default: 'd' }}}}>",
                 f"{{% echo {n} %}}", f"<{{{{ {n}.size }}}}>", f"<{{{{ {n} | upcase }}}}>",
@@ -794,6 +876,13 @@ class PairCheck:
         verdict: dict[str, Any] = {"o1": None, "o2": None, "errors": [n for n, r in outs.items() if not r.ok],
                                    "outs": {n: (r.out if r.ok else "ERR:" + r.err) for n, r in outs.items()}}
         if verdict["errors"]:
+            # the caller without the tag and the bare caller render, the caller with the tag
+            # raises: the partial's behaviour depends on the caller's locals
+            if set(verdict["errors"]) <= {"v1", "v2"} and ("v1_without_tag" in outs or "v1" not in verdict["errors"]):
+                verdict["o1"] = "raises-only-under-caller-locals:" + "/".join(
+                    sorted({outs[n].err for n in verdict["errors"]}))
+                verdict["errors"] = []
+                verdict["n_regions"] = 0
             return verdict
         r1, r2, r0 = regions(outs["v1"].out), regions(outs["v2"].out), regions(outs["bare"].out)
         verdict["n_regions"] = len(r1)
@@ -834,6 +923,17 @@ def run_pair(rt: Rt, seed: str, j: int, tier: str) -> None:
     ctx.count("pairs")
     if any(w["kind"] == "block" for w in pair.wraps):
         ctx.count("pairs_inside_overriding_block")
+    byname = {k.split(":")[0] for k, _s in pair.body} & {"translate", "tfilter", "babel", "builtin"}
+    bound = [f"{st['kind']}:{st['name']}" for st in pair.prefix if st["name"] in SETTING_VALUES] + [
+        f"wrap-{w['kind']}:{w['name']}" for w in pair.wraps if w["name"] in SETTING_VALUES]
+    for b in bound:
+        ctx.seen("caller_bindings_of_names_read_by_name", b)
+    for b in byname:
+        ctx.seen("by_name_body_kinds", b)
+    if byname:
+        ctx.count("pairs_body_reads_by_name")
+    if byname and bound:
+        ctx.count("pairs_by_name_read_and_caller_binding")
     nest = [f"{w['kind']}[{w.get('form', w.get('entry', ''))}]" for w in pair.wraps
             if w["kind"] in ("macro", "render") or (w["kind"] == "block" and w["entry"] == "render")]
     iso = len(nest)
@@ -874,9 +974,11 @@ def run_pair(rt: Rt, seed: str, j: int, tier: str) -> None:
         ctx.nt(sorted(srcs.items()), sorted(parts.items()), lname, mode)
         base2 = chk2.witness_base(parts)
         base2["gen"] = [seed, j]
-        if v2["o1"]:
+        # (a pair that already fails with the full data is the same mechanism: the data-layer
+        # suffix is reserved for what shows up only under the alternate layering)
+        if v2["o1"] and not v["o1"]:
             report_o1(rt, chk2, v2, base2)
-        if v2["o2"]:
+        if v2["o2"] and not v["o2"]:
             report_o2(rt, chk2, v2, base2)
     # fault injection on variant 1 (harness-owned context)
     if j % 4 == 0:
@@ -970,9 +1072,11 @@ def report_o1(rt: Rt, chk: PairCheck, v: dict[str, Any], base: dict[str, Any]) -
         prefix, body, wraps, suffix = _minimise_pair(chk, "o1", full=True)
         key = _o1_key(pair, prefix, wraps, chk.key_suffix())
     srcs, parts = chk.sources(prefix, body, wraps, suffix)
-    srcs.pop("v1_without_tag", None)
-    parts = _referenced(srcs, parts)
     v2 = chk.evaluate(srcs, parts, report_frames=False)
+    if not str(v2["o1"]).startswith("raises-only"):
+        srcs.pop("v1_without_tag", None)  # (kept when it is what shows that the tag is what raises)
+        v2["outs"].pop("v1_without_tag", None)
+    parts = _referenced(srcs, parts)
     wit = dict(base)
     wit.update({"oracle": "O1", "key": key, "sources": srcs, "partials": parts, "outputs": v2["outs"],
                 "relation": v2["o1"], "original_v1": pair.emit(1)})
@@ -1649,6 +1753,10 @@ def floors(tier: str) -> dict[str, int]:
         "fault_injections_raised": 500 * k,
         "lambda_scopes_pushed": 500 * k,
         "pairs_inside_overriding_block": 300 * k,
+        "pairs_body_reads_by_name": 800 * k,
+        "pairs_by_name_read_and_caller_binding": 400 * k,
+        "set:caller_bindings_of_names_read_by_name": 120,
+        "set:by_name_body_kinds": 4,
         "pairs_all_empty_data": 600 * k,
         "pairs_other_data_layers": 600 * k,
         "pairs_nested_isolation_depth_ge2": 600 * k,
@@ -1716,7 +1824,10 @@ def replay(wit: dict[str, Any], ctx: Ctx) -> None:
             if oracle == "O1":
                 r1, r2, r0 = regions(outs["v1"]), regions(outs["v2"]), regions(outs["bare"])
                 print(f"  regions v1={r1!r} v2={r2!r} bare={r0!r}")
-                if r1 != r2 or any(x != (r0[0] if r0 else None) for x in r1):
+                raised = [n for n in ("v1", "v2") if outs[n].startswith("ERR:")]
+                if raised and not any(outs[n].startswith("ERR:") for n in outs if n not in ("v1", "v2")):
+                    ctx.violation(key, f"the partial raises only under the caller's locals ({raised})", wit)
+                elif r1 != r2 or any(x != (r0[0] if r0 else None) for x in r1):
                     ctx.violation(key, "region differs between callers that differ only in locals", wit)
             else:
                 a, b = strip_regions(outs["v1"]), outs["v1_without_tag"]
